@@ -35,6 +35,8 @@ BRIDGES = {
     "mouette/attributes/attr_corners.py::cotangent": ["cotangent_bridge", "cotangent_from_angles", "cotangent_branches_agree"],
     # whole body: header incl. default 2*pi, border loop, cached `angles` source, skip guard, corner loop
     "mouette/attributes/attr_vertices.py::angle_defects": ["angle_defects_bridge", "angle_defects_header"],
+    # whole body: header, cached `cotan` source, edge loop, the two direct_face lookups with their None-skips, opposite corner, `+= cot[c]/2`
+    "mouette/attributes/attr_edges.py::cotan_weights": ["cotan_weights_bridge", "cotan_weights_header"],
     # whole body (guard, three sources of the face normals, header, ONE call of the translated interpolation, normalisation loop); every mode goes
     # through Generated.C07Src.interpolate_faces_to_vertices componentwise; 'uniform' is bridged to the mean of the adjacent face normals
     "mouette/attributes/attr_vertices.py::vertex_normals": ["vertex_normals_components", "vertex_normals_uniform", "vertex_normals_sources"],
@@ -1338,10 +1340,20 @@ def translate():
         fn = T.find_def(tree, "cotan_weights")
         exprs = []
         for node in ast.walk(fn):
-            if isinstance(node, ast.Assign) and isinstance(node.targets[0], ast.Name) and node.targets[0].id == "cnr":
-                exprs.append(node.value)
+            if isinstance(node, ast.Assign) and isinstance(node.targets[0], ast.Name) and any(
+                    isinstance(c, ast.Call) and isinstance(c.func, ast.Attribute) and c.func.attr == "face_to_first_corner" for c in ast.walk(node.value)):
+                exprs.append(node.value)            # the corner index (whatever the local is called)
         if len(exprs) != 2:
-            raise T.TranslateError(f"cotan_weights: expected two assignments to cnr, got {len(exprs)}")
+            raise T.TranslateError(f"cotan_weights: expected two corner-index assignments from face_to_first_corner(T), got {len(exprs)}")
+        # the two local indices are called iA, iB in the generated text, by order of appearance (names of the locals are free)
+        seen = []
+        for nd in ast.walk(exprs[0]):
+            if isinstance(nd, ast.Name) and not any(nd in ast.walk(c) for c in ast.walk(exprs[0]) if isinstance(c, ast.Call)) and nd.id not in seen:
+                seen.append(nd.id)
+        seen = [n for n in ast.unparse(exprs[0]).replace("(", " ").replace(")", " ").replace("+", " ").replace("-", " ").split() if n in seen]
+        seen = list(dict.fromkeys(seen))
+        if len(seen) != 2: raise T.TranslateError(f"cotan_weights: the corner index does not use exactly two local indices: {seen}")
+        ren = {seen[0]: "iA", seen[1]: "iB"}
         outs = []
         for e in exprs:
             # replace the call mesh.connectivity.face_to_first_corner(T) by the name first
@@ -1350,7 +1362,7 @@ def translate():
                     if isinstance(n.func, ast.Attribute) and n.func.attr == "face_to_first_corner":
                         return ast.copy_location(ast.Name(id="first", ctx=ast.Load()), n)
                     raise T.TranslateError("unexpected call in cnr expression")
-            outs.append(T.lean_int_expr(R().visit(e)))
+            outs.append(T.lean_int_expr(R().visit(e), ren))
         if outs[0] != outs[1]:
             raise T.TranslateError(f"the two cnr expressions differ: {outs}")
         body.append("/-- `attr_edges.cotan_weights`: `cnr = face_to_first_corner(T)+3-iA-iB` (Nat arithmetic; iA+iB ≤ 3 on triangles) -/\n"
@@ -1484,7 +1496,6 @@ SOURCE_MAP.update({
     "mouette/geometry/geometry.py::project_to_plane": _OOS + "not reached from the attribute functions",
     # attributes
     "mouette/attributes/attr_vertices.py::border_normals": _OOS + "border-curve normals are not in the statement's list of quantities",
-    "mouette/attributes/attr_edges.py::cotan_weights": "modelled",       # opposite-corner expression translated (oppCorner_bridge), loop hand-modelled
     "mouette/attributes/attr_edges.py::curvature_matrices": _OOS + "curvature tensors are not in the statement's list of quantities",
     "mouette/attributes/attr_faces.py::face_near_border": _OOS + "combinatorial flag, not a geometric quantity of the statement",
     "mouette/attributes/attr_faces.py::triangle_aspect_ratio": "oracle-only",
